@@ -222,9 +222,25 @@ func genEcdhOps(r *rand.Rand, n int) []string {
 				bad.pubX = x.FillBytes(make([]byte, len(b.pubX)))
 			}
 			remote = bad.tokens(r, form, kidA)
-		case 3: // wrong lengths
+		case 3, 5: // wrong lengths: random octets, or the genuine coordinate cut at either end / extended
 			bad := *b
-			bad.pubX = randBytes(r, []int{1, 16, 31, 33, 48, 65, 66, 67}[r.Intn(8)])
+			lens := []int{1, 16, 31, 33, 48, 65, 66, 67}
+			if crv == 4 {
+				lens = []int{1, 16, 31, 31, 33, 0}
+			}
+			switch r.Intn(4) {
+			case 0:
+				bad.pubX = append([]byte{}, b.pubX[1:]...)
+			case 1:
+				bad.pubX = append([]byte{}, b.pubX[:len(b.pubX)-1]...)
+			case 2:
+				bad.pubX = append(append([]byte{}, b.pubX...), 0)
+			default:
+				bad.pubX = randBytes(r, lens[r.Intn(len(lens))])
+			}
+			if crv != 4 && len(bad.pubX) < len(b.pubX) && bad.pubX[0] == 0 {
+				bad.pubX[0] = 1 // (a NIST coordinate may legitimately drop leading zeros; keep this one wrong)
+			}
 			remote = bad.tokens(r, form, kidA)
 		case 4: // all-zero coordinates
 			bad := *b
